@@ -1,14 +1,14 @@
 SPECIFICATION Spec
 CONSTANTS
   Refs = {1, 2}
-  Pushers = {1}
+  Pushers = {1, 2}
   Inits <- Inits01
-  PushIn <- WireNeg
-  CheckCas = FALSE
+  PushIn <- RaceLocalMC
+  CheckCas = TRUE
   CheckObj = TRUE
   AtomicMode = "txn"
   LocalCheckObj = TRUE
-  LocalAtomicMode = "txn"
+  LocalAtomicMode = "precheck"
   KeepHist = FALSE
   Emit = FALSE
 INVARIANT StatusExact
